@@ -344,7 +344,7 @@ func runSysScenario(c *Ctx, fixed bool, kind string) (term string, desc map[stri
 				<-q.resume
 			}
 			for q.r.Next() {
-				q.returned = append(q.returned, rowID(q.r.Row()))
+				q.returned = append(q.returned, qRowID(q.r.Row()))
 				n++
 				switch q.plan.mode {
 				case "slow":
@@ -616,7 +616,7 @@ func runSysScenario(c *Ctx, fixed bool, kind string) (term string, desc map[stri
 		}
 		nOpened, qCloses := tr.handlesOf(i)
 		obs = append(obs, fmt.Sprintf("{| qo_err := %s; qo_err2 := %s; qo_stats := %s; qo_returned := %s; qo_false_seen := %s; qo_nopened := %s; qo_closes := %s |}",
-			f.err.coq(), f.err2.coq(), coqSObs(f.stats, fileIdx), coqList(rows), coqBool(q.nextFalse && q.stickyOK), coqNat(nOpened), coqNatList(qCloses)))
+			f.err.coq(), f.err2.coq(), coqSObs(f.stats, fileIdx), coqList(rows), coqBool(q.nextFalse && q.stickyOK), coqNat(nOpened), qCoqNatList(qCloses)))
 	}
 	term = fmt.Sprintf("QTrace {| tc_fx := %s; tc_cap := %s; tc_envs := %s; tc_labels := %s; tc_obs := %s; tc_sem_end := %s |}",
 		coqBool(fixed), coqNat(maxQC), coqList(envs), coqList(labels), coqList(obs), coqNat(w.eng.VerifQuerySemaphoreLen()))
@@ -624,7 +624,7 @@ func runSysScenario(c *Ctx, fixed bool, kind string) (term string, desc map[stri
 		"rows_returned": totalReturned, "injected_hit": injected.Load(), "max_reads": w.store.maxReads.Load(), "opened": opened}
 	c.dist("sys_maxqc", fmt.Sprint(maxQC))
 	c.dist("sys_queries", fmt.Sprint(nq))
-	c.dist("sys_events", bucket(len(labels)))
+	c.dist("sys_events", qBucket(len(labels)))
 	for _, q := range sc.runs {
 		c.dist("sys_mode", q.plan.mode)
 	}
